@@ -386,4 +386,50 @@ def acceptedAttr (spelled : String → Spell) (a : SAttr) (w : AttrWire) : Optio
   | .ok v => some (a.name, encode w.kind v)
   | _ => if a.default == Val.none then Option.none else some (a.name, a.default)
 
+/-! ## what of `_attributes.py` / `_utils.dtype_to_tensor_type` `mkAttr` covers (tie G, compared with
+`Generated/AdaptAttrInventory.lean`)
+
+`mkAttr` has one rule for all kinds: `ok v ↦ encode`, `None ↦ absent iff .maybe`, `bad ↦ TypeError`. That is
+sound for the override table below: only `Attr` and `_AttrIterable` define `maybe` (both `None ↦ None`);
+`__init__` is overridden by `AttrTensor` / `_AttrIterable` / `AttrTensors` only (type guard, `tuple(value)`,
+copies — no canonicalisation of `None`); `_validate` by `AttrDtype` (→ `dtype_to_tensor_type`) and `AttrGraph`
+only; every raise site is a `TypeError` (or the abstract `NotImplementedError`s). A class that gains an
+`__init__` / `maybe` / `_validate` of its own is a code path `mkAttr` does not have. -/
+def coveredAttrClasses : List (String × List String × List String × List (String × String) × List String) := [
+  ("Attr", ["ABC", "Generic"], ["__init__", "deref", "maybe", "value", "_validate", "_to_onnx", "_attribute_proto_type", "_to_onnx_deref", "_get_pretty_type_exception"],
+   [], ["_validate: self._get_pretty_type_exception", "_validate: self._get_pretty_type_exception", "_attribute_proto_type: NotImplementedError", "_to_onnx_deref: NotImplementedError"]),
+  ("_Ref", ["Generic"], ["__init__", "copy", "_to_onnx"],
+   [], []),
+  ("AttrFloat32", ["Attr"], ["_to_onnx_deref"],
+   [("_attribute_proto_type", "AttributeProto.FLOAT")], []),
+  ("AttrInt64", ["Attr"], ["_to_onnx_deref"],
+   [("_attribute_proto_type", "AttributeProto.INT")], []),
+  ("AttrString", ["Attr"], ["_to_onnx_deref"],
+   [("_attribute_proto_type", "AttributeProto.STRING")], []),
+  ("AttrTensor", ["Attr"], ["__init__", "_to_onnx_deref"],
+   [("_attribute_proto_type", "AttributeProto.TENSOR")], ["__init__: TypeError"]),
+  ("AttrType", ["Attr"], ["_to_onnx_deref"],
+   [("_attribute_proto_type", "AttributeProto.TYPE_PROTO")], ["_to_onnx_deref: NotImplementedError"]),
+  ("AttrDtype", ["Attr"], ["_validate", "_to_onnx_deref"],
+   [("_attribute_proto_type", "AttributeProto.INT")], []),
+  ("AttrGraph", ["Attr"], ["_validate", "_to_onnx_deref"],
+   [("_attribute_proto_type", "AttributeProto.GRAPH")], ["_validate: TypeError", "_to_onnx_deref: TypeError"]),
+  ("_AttrIterable", ["Attr", "ABC"], ["__init__", "maybe", "_to_onnx_deref"],
+   [], []),
+  ("AttrFloat32s", ["_AttrIterable"], [],
+   [("_attribute_proto_type", "AttributeProto.FLOATS")], []),
+  ("AttrInt64s", ["_AttrIterable"], [],
+   [("_attribute_proto_type", "AttributeProto.INTS")], []),
+  ("AttrStrings", ["_AttrIterable"], [],
+   [("_attribute_proto_type", "AttributeProto.STRINGS")], []),
+  ("AttrTensors", ["_AttrIterable"], ["__init__", "_to_onnx_deref"],
+   [("_attribute_proto_type", "AttributeProto.TENSORS")], []),
+  ("<def _deref>", [], [],
+   [], [])
+]
+
+/-- (kind, guards) of the exits of `dtype_to_tensor_type`: `None`, numpy's `ValueError` for a malformed
+    spec, `object`, and ONNX's unknown-dtype errors all leave as `TypeError`. -/
+def coveredDtypeExits : List (String × List String) := [("raise", ["dtype_like is None"]), ("raise", ["<except ValueError>"]), ("raise", ["dtype == np.dtype(object)"]), ("return", ["not (dtype == np.dtype(object))", "dtype == np.dtype(str)"]), ("return", ["<try>"]), ("raise", ["<except (KeyError, ValueError)>"])]
+
 end Conform
